@@ -217,140 +217,11 @@ func runC13(c *Ctx) {
 		}
 		r.Check("C13-Q3", u.Name+": the page loop runs until COUNT elements or the end of the range, nothing else", "", ok, detail)
 	}
-	// Q2
-	nCut := 0
-	for _, fn := range []string{"node.(*KVNode).scanCommand", "node.(*KVNode).advanceScanCommand"} {
-		u0 := c.unit("C13-Q2", fn)
-		if u0 == nil {
-			continue
-		}
-		// the command function and the helpers of package node it calls (two levels)
-		units := nodeClosure(c, u0, 2)
-		found := 0
-		for _, u := range units {
-			for _, s := range u.Sites {
-				var cut ast.Expr
-				switch {
-				case s.Kind == flow.SStore && s.RHS != nil:
-					cut = s.RHS
-				case s.Kind == flow.SReturn && s.Ret != nil && len(s.Ret.Results) >= 1:
-					cut = s.Ret.Results[0]
-				default:
-					continue
-				}
-				se, ok := ast.Unparen(cut).(*ast.SliceExpr)
-				if !ok || se.Low != nil || se.High == nil {
-					continue
-				}
-				if t := u.Info().TypeOf(se.X); t == nil || t.String() != "[][]byte" {
-					continue
-				}
-				found++
-				nCut++
-				pc := u.BlockEntryPC(s)
-				atoms := map[string]*flow.F{}
-				pc.Atoms(atoms)
-				okEq := false
-				// the innermost loop over the page that contains the cut, and its element variable
-				var elem types.Object
-				ast.Inspect(u.Body, func(n ast.Node) bool {
-					if rs, ok := n.(*ast.RangeStmt); ok && rs.Pos() <= s.Pos && s.Pos < rs.End() {
-						if id, ok := rs.Value.(*ast.Ident); ok {
-							elem = u.Info().ObjectOf(id)
-						}
-					}
-					return true
-				})
-				var errAlts []*flow.F
-				for k, a := range atoms {
-					if strings.HasPrefix(k, "err") && strings.HasSuffix(k, " == nil") {
-						errAlts = append(errAlts, flow.Not(a))
-					}
-				}
-				for _, eq := range u.Match(an.Call("bytes.Equal")) {
-					a, inPC := atoms[u.C.Term(eq.Call)]
-					if !inPC || len(eq.Call.Args) != 2 {
-						continue
-					}
-					// one operand is the table of the element under the loop variable
-					fromElem := false
-					for _, arg := range eq.Call.Args {
-						id, ok := ast.Unparen(arg).(*ast.Ident)
-						if !ok {
-							continue
-						}
-						o := u.Info().ObjectOf(id)
-						for _, d := range u.Sites {
-							if d.Kind == flow.SStore && d.Local == o && d.Tuple != nil && d.TupleIdx == 0 {
-								if ce, ok := ast.Unparen(d.Tuple).(*ast.CallExpr); ok && len(ce.Args) == 1 && strings.HasPrefix(u.C.Term(d.Tuple), "common.ExtractTable(") {
-									if aid, ok := ast.Unparen(ce.Args[0]).(*ast.Ident); ok && elem != nil && u.Info().ObjectOf(aid) == elem {
-										fromElem = true
-									}
-								}
-							}
-						}
-					}
-					if !fromElem {
-						continue
-					}
-					if flow.Implies(pc, flow.Or(append([]*flow.F{flow.Not(a)}, errAlts...)...)).Holds {
-						okEq = true
-					}
-				}
-				for k := range atoms {
-					// a predicate helper of package node deciding by bytes.Equal on an extracted table
-					if i := strings.Index(k, "("); i > 0 && strings.HasPrefix(k, "node.") {
-						if hu, err := c.W.Unit(k[:i]); err == nil {
-							if len(hu.Match(an.Call("bytes.Equal"))) > 0 && len(hu.Match(an.Call("common.ExtractTable"))) > 0 {
-								okEq = true
-							}
-						}
-					}
-				}
-				r.Check("C13-Q2", fn+": the page is cut at the first element whose extracted table differs (bytes.Equal) from the cursor's", u.Pos(s.Pos), okEq, "pc = "+clipS(pc.String(), 300))
-			}
-		}
-		if found == 0 {
-			r.Bad("C13-Q2", fn+": the page is cut at the table boundary", "", "no truncation of the result page in this command or its helpers: the store-level scan does not stop at the table end")
-		}
-		c13CursorRule(c, u0, fn)
-		// the reference table is extracted from the cursor
-		td := u0.Match(an.LocalStore("table"))
-		r.Check("C13-Q2", fn+": the reference table is extracted from the cursor", "", len(td) >= 1 && td[0].Tuple != nil && u0.C.Term(td[0].Tuple) == "common.ExtractTable(cursor)", "")
-	}
+	c13TableCut(c, "C13-Q2")
 	for _, fn := range []string{"node.(*KVNode).hscanCommand", "node.(*KVNode).sscanCommand", "node.(*KVNode).zscanCommand"} {
 		if u := c.unit("C13-Q3", fn); u != nil {
 			c13CursorRule(c, u, fn)
 		}
-	}
-	r.Min("C13-Q2", nCut, 2, "page truncation sites in the node scan commands")
-	// no prefix comparison on table names anywhere in node/scan.go's functions
-	for _, fn := range c.P.Funcs() {
-		if !strings.HasPrefix(fn.Name, "node.") || !strings.HasSuffix(c.P.Fset.Position(fn.Decl.Pos()).Filename, "node/scan.go") || fn.Decl.Body == nil {
-			continue
-		}
-		u, err := c.W.Unit(fn.Name)
-		if err != nil {
-			continue
-		}
-		for _, s := range u.Match(an.Call("bytes.HasPrefix", "strings.HasPrefix")) {
-			// an argument that is a table name (a variable bound from ExtractTable, or a []byte parameter named like it)
-			bad := false
-			for _, a := range s.Call.Args {
-				if id, ok := ast.Unparen(a).(*ast.Ident); ok {
-					if isTableVar(u, id) {
-						bad = true
-					}
-				}
-			}
-			if bad {
-				r.Bad("C13-Q2", fn.Name+": decides table membership with a prefix comparison", u.Pos(s.Pos), "tables whose names are prefixes of each other (user, user2) are mixed up; compare the extracted table names for equality")
-			}
-		}
-	}
-	if u := c.unit("C13-Q2", "common.ExtractTable"); u != nil {
-		ib := u.Match(an.Call("bytes.IndexByte"))
-		r.Check("C13-Q2", "common.ExtractTable: the table is what precedes the first separator", "", len(ib) == 1 && u.ArgTerm(ib[0], 0) == "p0", "")
 	}
 }
 
@@ -475,4 +346,143 @@ func c13CursorRule(c *Ctx, u0 *an.Unit, fn string) {
 	}
 	r.Min("C13-Q3", nEmpty, 1, fn+": finished-cursor stores")
 	r.Min("C13-Q3", nCont, 1, fn+": continuation-cursor stores")
+}
+
+// c13TableCut: the node-level scan commands are the only thing that keeps a table scan inside its table (the
+// store-level scan runs on to the end of the data type). Used for C13-Q2 and, as the same structural fact seen
+// from the isolation side, for C12-K7.
+func c13TableCut(c *Ctx, q2 string) {
+	r := c.R
+	// Q2
+	nCut := 0
+	for _, fn := range []string{"node.(*KVNode).scanCommand", "node.(*KVNode).advanceScanCommand"} {
+		u0 := c.unit(q2, fn)
+		if u0 == nil {
+			continue
+		}
+		// the command function and the helpers of package node it calls (two levels)
+		units := nodeClosure(c, u0, 2)
+		found := 0
+		for _, u := range units {
+			for _, s := range u.Sites {
+				var cut ast.Expr
+				switch {
+				case s.Kind == flow.SStore && s.RHS != nil:
+					cut = s.RHS
+				case s.Kind == flow.SReturn && s.Ret != nil && len(s.Ret.Results) >= 1:
+					cut = s.Ret.Results[0]
+				default:
+					continue
+				}
+				se, ok := ast.Unparen(cut).(*ast.SliceExpr)
+				if !ok || se.Low != nil || se.High == nil {
+					continue
+				}
+				if t := u.Info().TypeOf(se.X); t == nil || t.String() != "[][]byte" {
+					continue
+				}
+				found++
+				nCut++
+				pc := u.BlockEntryPC(s)
+				atoms := map[string]*flow.F{}
+				pc.Atoms(atoms)
+				okEq := false
+				// the innermost loop over the page that contains the cut, and its element variable
+				var elem types.Object
+				ast.Inspect(u.Body, func(n ast.Node) bool {
+					if rs, ok := n.(*ast.RangeStmt); ok && rs.Pos() <= s.Pos && s.Pos < rs.End() {
+						if id, ok := rs.Value.(*ast.Ident); ok {
+							elem = u.Info().ObjectOf(id)
+						}
+					}
+					return true
+				})
+				var errAlts []*flow.F
+				for k, a := range atoms {
+					if strings.HasPrefix(k, "err") && strings.HasSuffix(k, " == nil") {
+						errAlts = append(errAlts, flow.Not(a))
+					}
+				}
+				for _, eq := range u.Match(an.Call("bytes.Equal")) {
+					a, inPC := atoms[u.C.Term(eq.Call)]
+					if !inPC || len(eq.Call.Args) != 2 {
+						continue
+					}
+					// one operand is the table of the element under the loop variable
+					fromElem := false
+					for _, arg := range eq.Call.Args {
+						id, ok := ast.Unparen(arg).(*ast.Ident)
+						if !ok {
+							continue
+						}
+						o := u.Info().ObjectOf(id)
+						for _, d := range u.Sites {
+							if d.Kind == flow.SStore && d.Local == o && d.Tuple != nil && d.TupleIdx == 0 {
+								if ce, ok := ast.Unparen(d.Tuple).(*ast.CallExpr); ok && len(ce.Args) == 1 && strings.HasPrefix(u.C.Term(d.Tuple), "common.ExtractTable(") {
+									if aid, ok := ast.Unparen(ce.Args[0]).(*ast.Ident); ok && elem != nil && u.Info().ObjectOf(aid) == elem {
+										fromElem = true
+									}
+								}
+							}
+						}
+					}
+					if !fromElem {
+						continue
+					}
+					if flow.Implies(pc, flow.Or(append([]*flow.F{flow.Not(a)}, errAlts...)...)).Holds {
+						okEq = true
+					}
+				}
+				for k := range atoms {
+					// a predicate helper of package node deciding by bytes.Equal on an extracted table
+					if i := strings.Index(k, "("); i > 0 && strings.HasPrefix(k, "node.") {
+						if hu, err := c.W.Unit(k[:i]); err == nil {
+							if len(hu.Match(an.Call("bytes.Equal"))) > 0 && len(hu.Match(an.Call("common.ExtractTable"))) > 0 {
+								okEq = true
+							}
+						}
+					}
+				}
+				r.Check(q2, fn+": the page is cut at the first element whose extracted table differs (bytes.Equal) from the cursor's", u.Pos(s.Pos), okEq, "pc = "+clipS(pc.String(), 300))
+			}
+		}
+		if found == 0 {
+			r.Bad(q2, fn+": the page is cut at the table boundary", "", "no truncation of the result page in this command or its helpers: the store-level scan does not stop at the table end")
+		}
+		if q2 == "C13-Q2" {
+			c13CursorRule(c, u0, fn)
+		}
+		// the reference table is extracted from the cursor
+		td := u0.Match(an.LocalStore("table"))
+		r.Check(q2, fn+": the reference table is extracted from the cursor", "", len(td) >= 1 && td[0].Tuple != nil && u0.C.Term(td[0].Tuple) == "common.ExtractTable(cursor)", "")
+	}
+	r.Min(q2, nCut, 2, "page truncation sites in the node scan commands")
+	// no prefix comparison on table names anywhere in node/scan.go's functions
+	for _, fn := range c.P.Funcs() {
+		if !strings.HasPrefix(fn.Name, "node.") || !strings.HasSuffix(c.P.Fset.Position(fn.Decl.Pos()).Filename, "node/scan.go") || fn.Decl.Body == nil {
+			continue
+		}
+		u, err := c.W.Unit(fn.Name)
+		if err != nil {
+			continue
+		}
+		for _, s := range u.Match(an.Call("bytes.HasPrefix", "strings.HasPrefix")) {
+			// an argument that is a table name (a variable bound from ExtractTable, or a []byte parameter named like it)
+			bad := false
+			for _, a := range s.Call.Args {
+				if id, ok := ast.Unparen(a).(*ast.Ident); ok {
+					if isTableVar(u, id) {
+						bad = true
+					}
+				}
+			}
+			if bad {
+				r.Bad(q2, fn.Name+": decides table membership with a prefix comparison", u.Pos(s.Pos), "tables whose names are prefixes of each other (user, user2) are mixed up; compare the extracted table names for equality")
+			}
+		}
+	}
+	if u := c.unit(q2, "common.ExtractTable"); u != nil {
+		ib := u.Match(an.Call("bytes.IndexByte"))
+		r.Check(q2, "common.ExtractTable: the table is what precedes the first separator", "", len(ib) == 1 && u.ArgTerm(ib[0], 0) == "p0", "")
+	}
 }
